@@ -17,6 +17,8 @@ def run(rep, idx, tier):
     rep.require("C06.2", 2)
     rep.require("C06.3", 1)
     rep.require("C06.4", 4)
+    rep.require("C06.6", 1)
+    glue.reset_discipline(rep, "C06.6", idx, ["csr/bus:Decoder"])
     c = get_ctx(idx, "csr:Decoder.elaborate")
     rep.analysed(c.fi.site)
     rep.count("drivers", len(c.t.drivers))
